@@ -936,7 +936,7 @@ func Run(cfg hx.Config) (*hx.Meta, error) {
 
 	// several packages in one invocation (goderive ./...): each package directory holds the output of
 	// an earlier version (or a cut-off file); the result per package must be the scratch result
-	nm := 4
+	nm := 8
 	if cfg.Tier == "thorough" {
 		nm = 24
 	}
@@ -981,9 +981,18 @@ func Run(cfg hx.Config) (*hx.Meta, error) {
 				os.WriteFile(filepath.Join(root, fmt.Sprintf("q%d", pi), "derived.gen.go"), old, 0o644)
 			}
 		}
-		g := hx.Goderive(cfg.Goderive, root, "./...")
-		gs := hx.Goderive(cfg.Goderive, sroot, "./...")
-		col.meta.CountSafe("multi-package-invocation")
+		// addressed by pattern, or (every second invocation) by import paths: the old file must be
+		// ignored however the package was found
+		addr := []string{"./..."}
+		if mi%2 == 1 {
+			addr = nil
+			for pi := range pks {
+				addr = append(addr, fmt.Sprintf("p/q%d", pi))
+			}
+		}
+		g := hx.Goderive(cfg.Goderive, root, addr...)
+		gs := hx.Goderive(cfg.Goderive, sroot, addr...)
+		col.meta.CountSafe("multi-package-invocation/" + map[bool]string{false: "pattern", true: "import-paths"}[mi%2 == 1])
 		for pi, q := range pks {
 			rd := func(rt string, ex int, log string) outcome {
 				b, err := os.ReadFile(filepath.Join(rt, fmt.Sprintf("q%d", pi), "derived.gen.go"))
@@ -996,7 +1005,7 @@ func Run(cfg hx.Config) (*hx.Meta, error) {
 				if (gs.Exit != 0) != (g.Exit != 0) {
 					col.meta.AddDirect(hx.Direct{Class: "c07-differs-from-scratch",
 						What:  fmt.Sprintf("multi-package invocation %d: exit %d over old files, %d from scratch", mi, g.Exit, gs.Exit),
-						Files: files(q.v, q.old, q.oldExists), Cmd: "goderive ./...", Output: hx.Truncate(g.Out, 1500)})
+						Files: files(q.v, q.old, q.oldExists), Cmd: "goderive " + strings.Join(addr, " "), Output: hx.Truncate(g.Out, 1500)})
 				}
 				continue
 			}
